@@ -1050,8 +1050,18 @@ func (s *Sim) Procs() []*Proc { return s.procs }
 // FnTable is generated by the instrumenter (function names of the package under test).
 var FnTable []string
 
-// Fn records a function entry in the trace of a traced replay (no effect otherwise).
+// FnHit marks the library functions entered by any run of this process (reach measure reported in the evidence).
+// Package code only runs under the scheduler's token, so plain stores suffice.
+var FnHit []bool
+
+// Fn records a function entry: always in FnHit, and in the trace of a traced replay.
 func Fn(id int) {
+	if FnHit == nil {
+		FnHit = make([]bool, len(FnTable))
+	}
+	if id >= 0 && id < len(FnHit) {
+		FnHit[id] = true
+	}
 	s := S
 	if s == nil || !s.cfg.Trace {
 		return
